@@ -367,14 +367,14 @@ func run(c *lib.Ctx) error {
 	lib.Parallel(3, 3, func(i int) {
 		switch i {
 		case 0:
-			r, err := c.TLC("MCNumLit", lib.TLCRun{Dir: dir, Module: "MCNumLit", Workers: 2, Timeout: 14 * time.Minute,
+			r, err := c.TLC("MCNumLit", lib.TLCRun{Dir: dir, Module: "MCNumLit", Workers: 1, Timeout: 14 * time.Minute,
 				Files: map[string][]byte{"MCNumLit.cfg": cfg(fmt.Sprintf("CONSTANT Seed = %d\nCONSTANT Big = %s\n", c.Seed%100000, map[bool]string{true: "TRUE", false: "FALSE"}[c.Thorough()]), "Documented", "SmallDecimal", "Emit")}})
 			if err == nil && r.ErrKind != "" {
 				err = lib.Infra("NumLit.tla: grammar and recogniser disagree: %s %s\n%s", r.ErrName, r.Err, r.ErrTrace)
 			}
 			rG, errs[i] = r, err
 		case 1:
-			pres, errs[i] = numx.Prescribe(c, "GenNumLit", dir, "GenNumLit", texts, c.Pick(2, 3), 14*time.Minute)
+			pres, errs[i] = numx.Prescribe(c, "GenNumLit", dir, "GenNumLit", texts, c.Pick(1, 3), 14*time.Minute)
 		case 2:
 			bad, errs[i] = lib.Judge(c, "JudgeRoundTrip", dir, "JudgeRoundTrip", rts, c.Pick(2, 3), 14*time.Minute)
 		}
